@@ -30,6 +30,8 @@ def gen_metrics(rnd, n_einsums=None, force=None):
         return gen_lf_affine(rnd)
     if force == "part":
         return gen_part_metrics(rnd)
+    if force == "reread-m":
+        return gen_reread_metrics(rnd)
     if force is None:
         if n_einsums in (None, 1) and rnd.random() < 0.12:
             return gen_merger(rnd)
@@ -39,6 +41,8 @@ def gen_metrics(rnd, n_einsums=None, force=None):
             return gen_lf_affine(rnd)
         if n_einsums in (None, 1) and rnd.random() < 0.18:
             return gen_part_metrics(rnd)
+        if n_einsums in (None, 2) and rnd.random() < 0.06:
+            return gen_reread_metrics(rnd)
         if rnd.random() < 0.08:
             force = "eager2"
     e2 = force == "eager2"    # one tensor loaded eagerly into two buffer levels
@@ -633,4 +637,88 @@ def gen_part_metrics(rnd):
     spec = Spec(decl, [e], partitioning={"Z": parts}, loop_order={"Z": lo},
                 spacetime={"Z": {"space": [], "time": list(lo)}},
                 extra="\n".join(arch + b + fmt) + "\n", syms=syms, tags=sorted(set(tags)))
+    return spec
+
+
+def gen_reread_metrics(rnd):
+    """Metrics-mode cascade in which a statically partitioned input of the
+    first Einsum is read again by the second one under a different tiling
+    (another size, another rank, or none): what the first Einsum's collection
+    and dump code did to the tensor must not leak into the second."""
+    two = rnd.random() < 0.6
+    decl = {"A": ["K", "M"], "B": ["K"], "C": ["K"], "T": ["M"], "Z": ["M"]}
+    if two:
+        decl["B"] = rnd.choice([["K"], ["K", "M"]])
+    if rnd.random() < 0.3:
+        decl["C"] = ["K", "M"]
+    f1 = [_acc("A", decl["A"]), _acc("B", decl["B"])]
+    f2 = [_acc("A", decl["A"]), _acc("C", decl["C"])]
+    if rnd.random() < 0.4:
+        f2.append(_acc("T", decl["T"]))
+    rnd.shuffle(f1)
+    rnd.shuffle(f2)
+    exprs = [Einsum(_acc("T", decl["T"]), [Term("times", f1)]),
+             Einsum(_acc("Z", decl["Z"]), [Term("times", f2)])]
+    parts, lo = {}, {}
+    tags = ["metrics", "m-reread-partitioned", "m-einsums2", "m-configs1"]
+
+    def tile(out, which):
+        p, groups = {}, []
+        for r in ("K", "M"):
+            if r in which:
+                n = which[r]
+                p[r] = ["uniform_shape(%d)" % rnd.randint(2, 6) for _ in range(n)]
+                groups.append([r + str(j) for j in range(n, -1, -1)])
+            else:
+                groups.append([r])
+        from .mapping import interleave
+        if p:
+            parts[out] = p
+        lo[out] = interleave(rnd, groups, True)
+    w1 = {"K": rnd.choice([1, 1, 2])}
+    if rnd.random() < 0.3:
+        w1["M"] = 1
+    kind = rnd.choice(["other-size", "other-size", "none", "other-rank", "same"])
+    if kind == "other-size":
+        w2 = {"K": rnd.choice([1, 1, 2])}
+    elif kind == "none":
+        w2 = {}
+    elif kind == "other-rank":
+        w2 = {"M": 1}
+    else:
+        w2 = dict(w1)
+    tile("T", w1)
+    tile("Z", w2)
+    if kind == "same" and "T" in parts:
+        parts["Z"] = {r: list(v) for r, v in parts["T"].items()}
+    tags.append("m-reread-" + kind)
+    # formats: for A (always) and some others, on root ranks or on the first Einsum's levels
+    fmt = ["format:"]
+    for t in ["A"] + [x for x in ("B", "C", "T", "Z") if rnd.random() < 0.4]:
+        rs = list(decl[t])
+        # level names only when both Einsums give this tensor the same levels (a format names
+        # the ranks of every Einsum that touches the tensor)
+        if t in ("A", "B") and rnd.random() < 0.5 and \
+                all(w1.get(r) == w2.get(r) for r in decl[t]) and (t == "B" or True):
+            rs = [x for x in lo["T"] if x.rstrip("0123456789") in decl[t]]
+        fmt += ["  %s:" % t, "    default:", "      rank-order: [%s]" % ", ".join(rs)]
+        for i, x in enumerate(rs):
+            fmt += ["      %s:" % x, "        format: %s" % rnd.choice(["C", "U"]),
+                    "        cbits: 32", "        pbits: %d" % (64 if i == len(rs) - 1 else 32)]
+    arch = ["architecture:", "  accel:", "  - name: System", "    attributes:",
+            "      clock_frequency: 1000", "    local:", "    - name: Mem", "      class: DRAM",
+            "      attributes:", "        bandwidth: 512", "    subtree:",
+            "    - name: %s" % _level_name("PE", rnd.choice([1, 4])), "      local:",
+            "      - name: Mul0", "        class: compute",
+            "        attributes:", "          type: mul"]
+    b = ["bindings:"]
+    for out in ("T", "Z"):
+        b += ["  %s:" % out, "  - config: accel", "    prefix: tmp/%s" % out]
+        if rnd.random() < 0.7:
+            b += ["  - component: Mul0", "    bindings:", "    - op: mul"]
+    st = {o: {"space": [], "time": list(lo[o])} for o in ("T", "Z")}
+    spec = Spec(decl, exprs, partitioning=parts or None, loop_order=lo, spacetime=st,
+                extra="\n".join(arch + b + fmt) + "\n", tags=sorted(set(tags)))
+    # extents larger than the tile sizes, so that two tilings really differ
+    spec._extents = {"K": rnd.randint(7, 13), "M": rnd.randint(3, 8)}
     return spec
